@@ -29,7 +29,7 @@ var c04Weights = core.OpWeights{
 
 func genC04(t *rapid.T, tier string) C04Case {
 	cfg := core.GenConfig(t, tier, core.GenOpts{
-		Keys:       []string{core.KLK, core.KLK, core.KLK, core.KLK, core.KInt, core.KUint64, core.KString, core.KBytes, core.KStruct, core.KInt64, core.KUint, core.KInt32, core.KUint16},
+		Keys:       []string{core.KLK, core.KLK, core.KLK, core.KLK, core.KInt, core.KUint64, core.KString, core.KBytes, core.KStruct, core.KInt64, core.KUint, core.KInt32, core.KUint16, core.KNamed},
 		Vals:       []string{core.VInt, core.VInt, core.VString, core.VBytes, core.VLong, core.VPtr, core.VTags},
 		NoCustomV1: true,
 		BigOneIn:   12,
